@@ -764,8 +764,8 @@ class CompoundInterval(Location):
                 next_end = block_end
                 combine = (curr_end == next_start) if preserve_overlappers else (curr_end >= next_start)
                 if combine:
-                    new_ends[-1] = next_end
-                    curr_end = next_end
+                    curr_end = max(curr_end, next_end)
+                    new_ends[-1] = curr_end
                     needs_combining = True
                 else:
                     new_starts.append(block_start)
